@@ -161,7 +161,9 @@ fn random_session(rng: &mut Rng) -> Session {
     cfg.unknown_target_pct = 35;
     cfg.partial_guards_pct = if rng.chance(1, 3) { 40 } else { 0 };
     cfg.expr_depth = rng.range(1, 3) as u32;
-    let mut prog = vec![gen::function(rng, &cfg, 0x1000)];
+    // one program in four lives above 2^31 (a 32-bit branch target there has its top bit set)
+    let fbase: u64 = if rng.chance(1, 4) { 0x8000_1000 } else { 0x1000 };
+    let mut prog = vec![gen::function(rng, &cfg, fbase)];
     if rng.chance(1, 3) {
         prog.push(gen::function(rng, &cfg, 0x5000));
         // let the first function branch into the second now and then
